@@ -1245,7 +1245,7 @@ def run_case(case):
                 engines.install()
                 state = gen.state_of(desc)
                 _, mag = ref.rate_law(desc, state, None)
-                maxrate = max([m / (abs(s_) + 1.0) for m, s_ in zip(mag, state)] + [1e-3])
+                maxrate = ref.max_rate(desc, state)
                 dt = 0.02 / maxrate
                 k = r.randint(2, 4)
                 sc = build_script(st, x, r, dt_si=dt, t_si=[0.0] + [dt * 2 * i for i in range(1, k)],
